@@ -739,7 +739,11 @@ func (e *Evaluator) createSpeculativeObjects(specObj *Cell) (*Cell, error) {
 	}
 
 	var objToSet *Value
-	if parent.Tag == ValueNil {
+	if created := createdSince(parent); created != nil {
+		// the parent was created after this chain was evaluated
+		// (o.a.x = o.a.y = 1): add to it, don't replace it
+		objToSet = created
+	} else if parent.Tag == ValueNil {
 		newParent, err := e.createSpeculativeObjects(NewCell(*parent))
 		if err != nil {
 			return nil, err
@@ -765,6 +769,33 @@ func (e *Evaluator) createSpeculativeObjects(specObj *Cell) (*Cell, error) {
 	}
 
 	return cell, nil
+}
+
+// createdSince returns the array or object that now exists where the
+// speculative object spec stood when it was evaluated, or nil
+func createdSince(spec *Value) *Value {
+	if spec.Tag != ValueNil || spec.ParentObj == nil {
+		return nil
+	}
+	parent := spec.ParentObj
+	if parent.Tag == ValueNil {
+		if parent = createdSince(parent); parent == nil {
+			return nil
+		}
+	}
+	var cell *Cell
+	switch {
+	case parent.Tag == ValueObj && spec.Str != nil:
+		cell = (*parent.Obj)[*spec.Str]
+	case parent.Tag == ValueArray && spec.Num != nil:
+		if index := int(*spec.Num); index >= 0 && index < len(parent.Array) {
+			cell = parent.Array[index]
+		}
+	}
+	if cell == nil || (cell.Value.Tag != ValueObj && cell.Value.Tag != ValueArray) {
+		return nil
+	}
+	return &cell.Value
 }
 
 func (e *Evaluator) evalAssignment(expr Expr, left *Cell, right *Cell) (*Cell, error) {
